@@ -339,6 +339,9 @@ func runStressB(t *testing.T, p *Plan) *Outcome {
 			}
 			n := w.nodes[se.entry]
 			rate, keep, _ := n.sr.GetSampleRate(se.ev.traceID)
+			if cfgRate := uint(p.Get("stress_rate", 2)); rate != cfgRate || (cfgRate == 1 && !keep) {
+				out.Violate("C16", "stress_decision_not_as_configured", "collect.StressRelief.GetSampleRate", "trace#%d: StressRelief.SamplingRate is %d, n%d answers keep=%v rate=%d", se.op.J, cfgRate, se.entry, keep, rate)
+			}
 			for _, o := range w.nodes {
 				if r2, k2, _ := o.sr.GetSampleRate(se.ev.traceID); r2 != rate || k2 != keep {
 					out.Violate("C16", "nodes_disagree_on_stress_decision", "collect.StressRelief.GetSampleRate", "trace#%d: n%d says keep=%v rate=%d, n%d says keep=%v rate=%d", se.op.J, se.entry, keep, rate, o.idx, k2, r2)
